@@ -1,4 +1,5 @@
 HARNESS = "c02"
+STALE_RERUN = True   # operands also re-run as stale external polynomials (see check)
 LEVEL = "proof"
 """C02 case generator: division / pseudo-division / reduction / divisibility.
 Every random choice comes from the one `rng` passed in.
